@@ -275,6 +275,9 @@ def _query_case(draw):
     if draw(st.booleans()):
         Ts = [draw(st.floats(500.0, 900.0)) for _ in range(draw(st.integers(1, 3)))]
         case["pairs"] = [[draw(st.sampled_from(Ts)), 10 ** draw(st.floats(0.0, 4.0))] for _ in range(draw(st.integers(2, 5)))]
+        if len(Ts) >= 2 and draw(st.booleans()):
+            # a cycle: equal first and last temperature with a different one in between
+            case["pairs"] = [[Ts[0], case["pairs"][0][1]]] + [[Ts[1], 10 ** draw(st.floats(0.0, 4.0))]] + [[Ts[0], 10 ** draw(st.floats(0.0, 4.0))]]
     return case
 
 
